@@ -241,6 +241,7 @@ Fixpoint frag2 (st : stmt) : bool :=
   | SAssignCall _ (ECall _ _ args) => forallb pure args          (* x, y = f(args) *)
   | SVarDefCall _ (ECall _ _ args) => forallb pure args          (* x, y := f(args) *)
   | SExpr (ECall _ _ args) => forallb pure args                  (* f(args) *)
+  | SReturn es => forallb pure es                                (* return e1, e2 *)
   | _ => false
   end.
 Fixpoint frag2_all (l : list stmt) : bool := match l with [] => true | x :: r => frag2 x && frag2_all r end.
@@ -358,6 +359,113 @@ Proof.
   eapply e3_trans; [exact (e3_expr _ _ _ _ _ H1)|exact (store_e3 _ _ _ _ _ H2)].
 Qed.
 
+(* ---- call statements: arguments, the call line, the copy of the return register ---- *)
+Definition args_fix :=
+  fix args_of (es : list expr) : M (St:=bstate) (list atom) :=
+    match es with
+    | [] => mret []
+    | a :: r => mbind (t_expr bash_conv a true) (fun va => mbind (args_of r) (fun vr => mret (first_value bash_conv va :: vr)))
+    end.
+
+Lemma args_as_pv : forall l s vs s', forallb pure l = true -> args_fix l s = TOk vs s' -> pv_fix l s = TOk vs s'.
+Proof.
+  induction l as [|e r IH]; intros s vs s' Hp H; [exact H|].
+  cbn [forallb] in Hp. apply andb_true_iff in Hp as [Hpe Hpr].
+  cbn [args_fix] in H. mb H as va s1 H1 H2. mb H2 as vr s2 H2 H3. mr H3.
+  destruct (pure_single e Hpe true s va s1 H1) as [a ->]. cbn [first_value].
+  cbn [pv_fix]. unfold mbind. rewrite H1. rewrite (IH s1 vr s' Hpr H2). reflexivity.
+Qed.
+
+
+(* ---- the return statement ---- *)
+Fixpoint rv_lines (vs : list atom) (i : nat) : list line :=
+  match vs with [] => [] | v :: r => LAssign (rv_name i) (RAtom v) :: rv_lines r (S i) end.
+
+Lemma rv_name_inj i j : rv_name i = rv_name j -> i = j.
+Proof. unfold rv_name. intro H. apply app_inv_head in H. unfold dec_nat in H. apply dec_N_inj in H. apply Nat2N.inj in H. exact H. Qed.
+
+Lemma rv_fold_cext : forall vs s i,
+  cext s (fst (fold_left (fun (acc : bstate * nat) v => let '(st, i) := acc in (add_line (LAssign (var_name st (rv_name i) true) (RAtom v)) st, S i)) vs (s, i)))
+       (rv_lines vs i).
+Proof.
+  induction vs as [|v r IH]; intros s i; cbn [fold_left rv_lines fst]; [apply cext_refl|].
+  rewrite var_name_global. change (LAssign (rv_name i) (RAtom v) :: rv_lines r (S i)) with ([LAssign (rv_name i) (RAtom v)] ++ rv_lines r (S i)).
+  eapply cext_trans; [apply cext_line|apply IH].
+Qed.
+
+Lemma rv_exec : forall vs i b, (forall a j, In a vs -> a <> ARef (rv_name j)) ->
+  exists b', exec_lines b (rv_lines vs i) = Some b' /\
+             (forall j v, nth_error vs j = Some v -> sh_get (rv_name (i + j)) b' = atom_text b v) /\
+             (forall n, (forall j, (i <= j)%nat -> n <> rv_name j) -> sh_get n b' = sh_get n b).
+Proof.
+  induction vs as [|v r IH]; intros i b Hno.
+  - exists b. split; [reflexivity|]. split; [intros j w H; destruct j; discriminate|intros; reflexivity].
+  - cbn [rv_lines exec_lines exec_line eval_rhs].
+    set (b1 := sh_set (rv_name i) (atom_text b v) b).
+    assert (forall a, In a r -> atom_text b1 a = atom_text b a) as Hsame.
+    { intros a Ha. destruct a as [t|n]; [reflexivity|]. cbn [atom_text]. unfold b1. apply sh_get_set_other.
+      intro Heq. apply (Hno (ARef n) i (or_intror Ha)). rewrite Heq. reflexivity. }
+    destruct (IH (S i) b1 (fun a j Ha => Hno a j (or_intror Ha))) as (b' & Hx & Hv & Hf).
+    exists b'. split; [exact Hx|]. split.
+    + intros j w Hj. destruct j as [|j].
+      * cbn [nth_error] in Hj. inversion Hj; subst w. rewrite Nat.add_0_r. rewrite Hf.
+        -- unfold b1. apply sh_get_set_same.
+        -- intros j Hj0 Heq. apply rv_name_inj in Heq. lia.
+      * cbn [nth_error] in Hj. replace (i + S j)%nat with (S i + j)%nat by lia. rewrite (Hv j w Hj). apply Hsame. exact (nth_error_In _ _ Hj).
+    + intros n Hn. rewrite (Hf n (fun j Hj => Hn j ltac:(lia))). unfold b1. apply sh_get_set_other. apply Hn. apply le_n.
+Qed.
+
+Lemma rv_lines_no_echo vs : forall i, forallb no_echo (rv_lines vs i) = true.
+Proof. induction vs as [|v r IH]; intro i; [reflexivity|]. cbn [rv_lines forallb]. rewrite IH. reflexivity. Qed.
+
+Lemma return_decompose es s u s' :
+  t_stmt bash_conv (SReturn es) s = TOk u s' ->
+  exists vs s1, args_fix es s = TOk vs s1 /\ cext s1 s' (rv_lines vs 0 ++ [LReturn]).
+Proof.
+  intro H. cbn [t_stmt] in H. mb H as vs s1 H1 H2. exists vs, s1. split; [exact H1|].
+  assert (cv_return bstate atom bash_conv vs s1 =
+          TOk tt (add_line LReturn (fst (fold_left (fun (acc : bstate * nat) v => let '(st, i) := acc in (add_line (LAssign (var_name st (rv_name i) true) (RAtom v)) st, S i)) vs (s1, 0%nat))))) as E by reflexivity.
+  rewrite E in H2. inversion H2; subst. eapply cext_trans; [apply rv_fold_cext|apply cext_line].
+Qed.
+
+
+Lemma map_nth_agree {A B C} (f : A -> C) (g : B -> C) : forall (l : list A) (l' : list B) i v,
+  map f l = map g l' -> nth_error l' i = Some v -> exists a, nth_error l i = Some a /\ f a = g v.
+Proof.
+  induction l as [|a r IH]; intros l' i v H Hn; destruct l' as [|w r']; try discriminate.
+  - destruct i; discriminate.
+  - cbn [map] in H. injection H as H0 Hr. destruct i as [|i].
+    + cbn [nth_error] in *. inversion Hn; subst. exists a. split; [reflexivity|exact H0].
+    + cbn [nth_error] in *. exact (IH r' i v Hr Hn).
+Qed.
+
+
+Lemma args_e3 : forall es s vs s', args_fix es s = TOk vs s' -> emits3 s s'.
+Proof.
+  induction es as [|e r IH]; intros s vs s' H; [mr H; apply e3_refl|].
+  cbn [args_fix] in H. mb H as va s1 H1 H2. mb H2 as vr s2 H2 H3. mr H3.
+  eapply e3_trans; [exact (e3_expr _ _ _ _ _ H1)|exact (IH _ _ _ H2)].
+Qed.
+
+Lemma rv_lines_plain3 vs : forall i, forallb plain3 (rv_lines vs i) = true.
+Proof. induction vs as [|v r IH]; intro i; [reflexivity|]. cbn [rv_lines forallb]. rewrite IH. reflexivity. Qed.
+
+Lemma rv_fold_e3 : forall vs s i,
+  emits3 s (fst (fold_left (fun (acc : bstate * nat) v => let '(st, i) := acc in (add_line (LAssign (var_name st (rv_name i) true) (RAtom v)) st, S i)) vs (s, i))).
+Proof.
+  induction vs as [|v r IH]; intros s i; cbn [fold_left fst]; [apply e3_refl|].
+  eapply e3_trans; [|apply IH]. apply e3_line. reflexivity.
+Qed.
+
+Lemma return_e3 es s u s' : t_stmt bash_conv (SReturn es) s = TOk u s' -> emits3 s s'.
+Proof.
+  intro H. cbn [t_stmt] in H. mb H as vs s1 H1 H2.
+  assert (cv_return bstate atom bash_conv vs s1 =
+          TOk tt (add_line LReturn (fst (fold_left (fun (acc : bstate * nat) v => let '(st, i) := acc in (add_line (LAssign (var_name st (rv_name i) true) (RAtom v)) st, S i)) vs (s1, 0%nat))))) as E by reflexivity.
+  rewrite E in H2. inversion H2; subst.
+  eapply e3_trans; [exact (args_e3 es s vs s1 H1)|]. eapply e3_trans; [apply rv_fold_e3|]. apply e3_line. reflexivity.
+Qed.
+
 Lemma evals_e3 many : forall es i s vs s', eval_values bash_conv many es i s = TOk vs s' -> emits3 s s'.
 Proof.
   induction es as [|e r IH]; intros i s vs s' H; cbn [eval_values] in H; [mr H; apply e3_refl|].
@@ -381,6 +489,7 @@ Proof.
   - (* SVarDefCall *) change (t_stmt bash_conv (SVarDefCall vs c) s) with (t_stmt bash_conv (SAssignCall vs c) s) in Ht. exact (assign_call_e3 vs c s u s' Ht).
   - (* SAssign *) exact (assign_any_e3 vs es s u s' Ht).
   - (* SAssignCall *) exact (assign_call_e3 vs c s u s' Ht).
+  - (* SReturn *) exact (return_e3 es s u s' Ht).
   - (* SIf *)
     destruct brs as [|[c0 b0] elifs]; [discriminate|]. rewrite frag2_if in Hf.
     apply andb_true_iff in Hf as [Hf Hfe]. apply andb_true_iff in Hf as [Hf Hfb]. apply andb_true_iff in Hf as [_ Hf0].
@@ -567,23 +676,6 @@ Proof.
 Qed.
 
 Section WithCalls.
-(* ---- call statements: arguments, the call line, the copy of the return register ---- *)
-Definition args_fix :=
-  fix args_of (es : list expr) : M (St:=bstate) (list atom) :=
-    match es with
-    | [] => mret []
-    | a :: r => mbind (t_expr bash_conv a true) (fun va => mbind (args_of r) (fun vr => mret (first_value bash_conv va :: vr)))
-    end.
-
-Lemma args_as_pv : forall l s vs s', forallb pure l = true -> args_fix l s = TOk vs s' -> pv_fix l s = TOk vs s'.
-Proof.
-  induction l as [|e r IH]; intros s vs s' Hp H; [exact H|].
-  cbn [forallb] in Hp. apply andb_true_iff in Hp as [Hpe Hpr].
-  cbn [args_fix] in H. mb H as va s1 H1 H2. mb H2 as vr s2 H2 H3. mr H3.
-  destruct (pure_single e Hpe true s va s1 H1) as [a ->]. cbn [first_value].
-  cbn [pv_fix]. unfold mbind. rewrite H1. rewrite (IH s1 vr s' Hpr H2). reflexivity.
-Qed.
-
 Lemma call_decompose f rets args used s vs s' :
   t_expr bash_conv (ECall f rets args) used s = TOk vs s' ->
   exists va s1, args_fix args s = TOk va s1 /\
@@ -746,7 +838,7 @@ Proof.
 Qed.
 
 (* ---- the source side: signals and loops ---- *)
-Inductive sig := SN | SB | SC.
+Inductive sig := SN | SB | SC | SR (rvals : list value).
 Inductive code := Prog (body : list stmt) | Loop (first : bool) (cond : expr) (incr : option stmt) (body : list stmt).
 Definition opt_list (o : option stmt) : list stmt := match o with Some st => [st] | None => [] end.
 
@@ -791,6 +883,9 @@ Inductive J (XS : list var) : code -> senv -> senv -> bytes -> sig -> Prop :=
     forallb pure args = true -> (forall e, In e args -> side XS e) -> pevals sg args = Some vals ->
     scall XS f vals sg rvals sg1 o -> env_ok sg1 ->
     J XS (Prog r) sg1 sg' out g -> J XS (Prog (SExpr (ECall f rets args) :: r)) sg sg' (o ++ out) g
+| j_return sg es rvals r :
+    forallb pure es = true -> (forall e, In e es -> side XS e) -> pevals sg es = Some rvals -> frag2_all r = true ->
+    J XS (Prog (SReturn es :: r)) sg sg [] (SR rvals)
 | j_break sg r : frag2_all r = true -> J XS (Prog (SBreak :: r)) sg sg [] SB
 | j_continue sg r : frag2_all r = true -> J XS (Prog (SContinue :: r)) sg sg [] SC
 | j_if_next sg c0 b0 elifs els bools sgm outm r sg' out g :
@@ -819,7 +914,7 @@ Inductive J (XS : list var) : code -> senv -> senv -> bytes -> sig -> Prop :=
     J XS (Loop first cond incr body) sg sg2 (o1 ++ o2) SN
 | l_next first cond incr body sg sg1 o1 sg2 o2 gb sg3 o3 :
     J XS (Prog (incr_of first incr)) sg sg1 o1 SN -> peval sg1 cond = Some (VBool true) ->
-    J XS (Prog body) sg1 sg2 o2 gb -> gb <> SB ->
+    J XS (Prog body) sg1 sg2 o2 gb -> (gb = SN \/ gb = SC) ->
     J XS (Loop false cond incr body) sg2 sg3 o3 SN ->
     J XS (Loop first cond incr body) sg sg3 (o1 ++ o2 ++ o3) SN.
 
@@ -848,11 +943,16 @@ Definition after (g : sig) (b' : shenv) (L : list (list line)) (rest : list line
   | SN => lruns b' L rest res
   | SB => match L with _ :: L' => exists r', skip_done rest 0 = Some r' /\ lruns b' L' r' res | [] => False end
   | SC => match L with top :: _ => lruns b' L top res | [] => False end
+  | SR _ => res = (b', [])                (* return ends the run of the function body, whatever follows *)
   end.
+
+(* a block that ends with return leaves the returned values in the return registers *)
+Definition regs (g : sig) (b' : shenv) : Prop :=
+  match g with SR rvals => forall i v, nth_error rvals i = Some v -> sh_get (rv_name i) b' = text v | _ => True end.
 
 Lemma after_skip g b' L Y rest res : g <> SN -> dclosed Y -> after g b' L rest res -> after g b' L (Y ++ rest) res.
 Proof.
-  intros Hg HY H. destruct g; [contradiction| |exact H]. cbn [after] in *. destruct L as [|t L']; [exact H|].
+  intros Hg HY H. destruct g; [contradiction| |exact H|exact H]. cbn [after] in *. destruct L as [|t L']; [exact H|].
   destruct H as (r' & Hs & Hr). exists r'. split; [rewrite HY; exact Hs|exact Hr].
 Qed.
 
@@ -867,7 +967,7 @@ Qed.
 
 Lemma after_tail g b' L T rest res : tail3 T -> after g b' L rest res -> after g b' L (T ++ rest) res.
 Proof.
-  intros [TO TD] H. destruct g; [exact (lexit_tail T b' L rest res TO H)|apply after_skip; [discriminate|exact TD|exact H]|exact H].
+  intros [TO TD] H. destruct g; [exact (lexit_tail T b' L rest res TO H)|apply after_skip; [discriminate|exact TD|exact H]|exact H|exact H].
 Qed.
 
 Lemma fresh_cext XS s s' ls : cext s s' ls -> fresh_flags XS s -> fresh_flags XS s'.
@@ -883,7 +983,7 @@ Qed.
 Definition simP (XS : list var) (sg : senv) (body : list stmt) (sg' : senv) (out : bytes) (g : sig) : Prop :=
   forall s u s' b, go_fix body s = TOk u s' -> frag2_all body = true -> env_ok sg -> ctx_ok XS sg b s -> fresh_flags XS s ->
   exists X b', cext s s' X /\ ctx_ok XS sg' b' s' /\ untouched XS s s' b b' /\
-               forall L rest res, after g b' L rest res -> lruns b L (X ++ rest) (prepend out res).
+               regs g b' /\ forall L rest res, after g b' L rest res -> lruns b L (X ++ rest) (prepend out res).
 
 Lemma all_e3 (l : list stmt) : Forall stmt_e3 l.
 Proof. apply Forall_forall. intros st _. apply frag2_e3. Qed.
@@ -897,6 +997,7 @@ Qed.
 Lemma simP_nil XS sg : simP XS sg [] sg [] SN.
 Proof.
   intros s u s' b Ht _ _ Hc _. mr Ht. exists [], b. split; [apply cext_refl|]. split; [exact Hc|]. split; [apply untouched_refl|].
+  split; [exact I|].
   intros L rest res H. rewrite prepend_nil. exact H.
 Qed.
 
@@ -907,9 +1008,10 @@ Proof.
   intros Hp Hs Hx Hv Henv' IH s u s' b Ht Hf Henv Hc Hfl.
   cbn [go_fix] in Ht. mb Ht as u1 s1 H1 H2. cbn [frag2_all] in Hf. apply andb_true_iff in Hf as [_ Hfr].
   destruct (assign_step XS sg x e s u1 s1 b v Hp H1 Hv Henv Hs Hx Hc) as (l1 & b1 & E1 & R1 & C1 & U1).
-  destruct (IH s1 u s' b1 H2 Hfr Henv' C1 (fresh_cext _ _ _ _ E1 Hfl)) as (X2 & b2 & E2 & C2 & U2 & Hk).
+  destruct (IH s1 u s' b1 H2 Hfr Henv' C1 (fresh_cext _ _ _ _ E1 Hfl)) as (X2 & b2 & E2 & C2 & U2 & Rg & Hk).
   exists (l1 ++ X2), b2. split; [eapply cext_trans; eassumption|]. split; [exact C2|].
   split; [exact (untouched_trans XS s s1 s' l1 b b1 b2 E1 (cx_mono _ _ _ E2) U1 U2)|].
+  split; [exact Rg|].
   intros L rest res H. rewrite <- app_assoc. rewrite <- (prepend_nil (prepend out res)). exact (lruns_straight l1 b b1 [] L _ _ R1 (Hk L rest res H)).
 Qed.
 
@@ -920,9 +1022,10 @@ Proof.
   intros Hp Hs Hv IH s u s' b Ht Hf Henv Hc Hfl.
   cbn [go_fix] in Ht. mb Ht as u1 s1 H1 H2. cbn [frag2_all] in Hf. apply andb_true_iff in Hf as [_ Hfr].
   destruct (print_step XS sg es s u1 s1 b vals Hp H1 Hv Henv Hs Hc) as (l1 & b1 & E1 & R1 & C1 & U1).
-  destruct (IH s1 u s' b1 H2 Hfr Henv C1 (fresh_cext _ _ _ _ E1 Hfl)) as (X2 & b2 & E2 & C2 & U2 & Hk).
+  destruct (IH s1 u s' b1 H2 Hfr Henv C1 (fresh_cext _ _ _ _ E1 Hfl)) as (X2 & b2 & E2 & C2 & U2 & Rg & Hk).
   exists (l1 ++ X2), b2. split; [eapply cext_trans; eassumption|]. split; [exact C2|].
   split; [exact (untouched_trans XS s s1 s' l1 b b1 b2 E1 (cx_mono _ _ _ E2) U1 U2)|].
+  split; [exact Rg|].
   intros L rest res H. rewrite <- app_assoc.
   replace (prepend (join [32] (map text vals) ++ [10] ++ out) res) with (prepend (join [32] (map text vals) ++ [10]) (prepend out res))
     by (rewrite prepend_app, <- app_assoc; reflexivity).
@@ -1027,12 +1130,13 @@ Proof.
   { exact C1. }
   assert (cext s sA (ls1 ++ ls2)) as CA by (eapply cext_trans; eassumption).
   assert (fresh_flags XS s) as Hfl by (split; [exact Fl1|split; [exact Fl2|split; [exact Fl3|split; [exact Fl4|exact Fl5]]]]).
-  destruct (IH sA u s' b2 H2 Hfr Henv1 C2 (fresh_cext _ _ _ _ CA Hfl)) as (X2 & b3 & E3 & C3 & U3 & Hk).
+  destruct (IH sA u s' b2 H2 Hfr Henv1 C2 (fresh_cext _ _ _ _ CA Hfl)) as (X2 & b3 & E3 & C3 & U3 & Rg & Hk).
   exists ((ls1 ++ ls2) ++ X2), b3. split; [eapply cext_trans; eassumption|]. split; [exact C3|].
   split.
   { apply (untouched_trans XS s sA s' _ b b2 b3 CA (cx_mono _ _ _ E3)); [|exact U3].
     intros n Hu Hh _ _ _ Hma. rewrite F2; [|intros x Hx; rewrite (user_name_cext _ _ _ x E1); exact (Hu x (Hxs x Hx))].
     apply F1; [exact Hh|intros j _; apply Hma]. }
+  split; [exact Rg|].
   intros L rest res H. rewrite <- app_assoc. rewrite <- (prepend_nil (prepend out res)).
   apply (lruns_straight (ls1 ++ ls2) b b2 [] L); [|exact (Hk L rest res H)].
   apply exec_outs_silent.
@@ -1093,9 +1197,10 @@ Proof.
   destruct (call_args XS sg f args s va s1 b vals rvals sg1 o Hp Ha Hv Henv Hs Hc Hfl Hsc) as (l1 & b2 & C1 & Hc2 & U2 & _ & Hk1).
   set (sA := add_line (LCall f va) s1) in *.
   assert (cext s sA (l1 ++ [LCall f va])) as CA by (eapply cext_trans; [exact C1|apply cext_line]).
-  destruct (IH sA u s' b2 H2 Hfr Henv1 (ctx_cext _ _ _ _ _ _ (cext_line _ s1) Hc2) (fresh_cext _ _ _ _ CA Hfl)) as (X2 & b3 & E2 & C3 & U3 & Hk).
+  destruct (IH sA u s' b2 H2 Hfr Henv1 (ctx_cext _ _ _ _ _ _ (cext_line _ s1) Hc2) (fresh_cext _ _ _ _ CA Hfl)) as (X2 & b3 & E2 & C3 & U3 & Rg & Hk).
   exists ((l1 ++ [LCall f va]) ++ X2), b3. split; [eapply cext_trans; eassumption|]. split; [exact C3|].
   split; [exact (untouched_trans XS s sA s' _ b b2 b3 CA (cx_mono _ _ _ E2) (untouched_gen XS s s s1 sA [] b b2 (cext_refl s) (le_n _) U2) U3)|].
+  split; [exact Rg|].
   intros L rest res H. rewrite <- !app_assoc. rewrite <- prepend_app. apply Hk1. exact (Hk L rest res H).
 Qed.
 
@@ -1138,13 +1243,14 @@ Proof.
       + unfold b4, b3. rewrite sh_get_set_other.
         * rewrite sh_get_set_other; [exact (Hrep2 y w Hy Hw)|]. intro Heq. exact (Hhy2 y _ Hy Heq).
         * rewrite Hxn1. intro Heq. rewrite (Hinj2 y x Hy Hx Heq) in Sv. discriminate. }
-  destruct (IH sF u s' b4 H2 Hfr Henv1 Hc4 (fresh_cext _ _ _ _ CF Hfl)) as (X2 & b5 & E2 & C5 & U5 & Hk).
+  destruct (IH sF u s' b4 H2 Hfr Henv1 Hc4 (fresh_cext _ _ _ _ CF Hfl)) as (X2 & b5 & E2 & C5 & U5 & Rg & Hk).
   exists (((l1 ++ [LCall f va] ++ [LAssign hn (RAtom (ARef (rv_name 0)))]) ++ [LAssign xn (RAtom (ARef hn))]) ++ X2), b5.
   split; [eapply cext_trans; eassumption|]. split; [exact C5|].
   split.
   { apply (untouched_trans XS s sF s' _ b b4 b5 CF (cx_mono _ _ _ E2)); [|exact U5].
     intros n Hu Hh Hf Hm Hr Hma. unfold b4, b3. rewrite sh_get_set_other; [|rewrite Hxn; intro Heq; exact (Hu x Hx Heq)].
     rewrite sh_get_set_other; [|rewrite Hhn; intro Heq; exact (Hh _ Heq)]. apply (untouched_gen XS s s s1 sF [] b b2 (cext_refl s)); [unfold sF; cbn [add_line b_for_counter]; rewrite (helper_assign_forc _ _ _ _ EH); apply le_n|exact U2| | | | | |]; assumption. }
+  split; [exact Rg|].
   intros L rest res H. rewrite <- !app_assoc. rewrite <- prepend_app. apply Hk1.
   rewrite <- (prepend_nil (prepend out res)).
   apply (lruns_straight [LAssign hn (RAtom (ARef (rv_name 0))); LAssign xn (RAtom (ARef hn))] b2 b4 [] L); [|exact (Hk L rest res H)].
@@ -1212,7 +1318,7 @@ Proof.
   { exact Hc3. }
   assert (cext s sA (l1 ++ ([LCall f va] ++ copy_lines sc K 0 (length xs)) ++ ls)) as CA
     by (eapply cext_trans; [exact C1|]; eapply cext_trans; [exact C1B|exact E4]).
-  destruct (IH sA u s' b4 H2 Hfr Henv1 C4 (fresh_cext _ _ _ _ CA Hfl)) as (X2 & b5 & E2 & C5 & U5 & Hk).
+  destruct (IH sA u s' b4 H2 Hfr Henv1 C4 (fresh_cext _ _ _ _ CA Hfl)) as (X2 & b5 & E2 & C5 & U5 & Rg & Hk).
   exists ((l1 ++ ([LCall f va] ++ copy_lines sc K 0 (length xs)) ++ ls) ++ X2), b5.
   split; [eapply cext_trans; eassumption|]. split; [exact C5|].
   split.
@@ -1220,6 +1326,7 @@ Proof.
     intros n Hu Hh Hfn Hm Hr Hma. rewrite F4; [|intros x Hx; rewrite (user_name_cext _ _ _ x (cext_trans _ _ _ _ _ C1 C1B)); exact (Hu x (Hxs x Hx))].
     rewrite F3; [|intros j _; rewrite Hhn, (helper_name_cext _ _ _ j C1); apply Hh].
     apply (untouched_gen XS s s s1 sA [] b b2 (cext_refl s)); [exact (cx_mono _ _ _ (cext_trans _ _ _ _ _ C1B E4))|exact U2| | | | | |]; assumption. }
+  split; [exact Rg|].
   intros L rest res H. rewrite <- !app_assoc. rewrite <- prepend_app. apply Hk1.
   rewrite <- (prepend_nil (prepend out res)). rewrite app_assoc.
   apply (lruns_straight (copy_lines sc K 0 (length xs) ++ ls) b2 b4 [] L); [|exact (Hk L rest res H)].
@@ -1237,6 +1344,62 @@ Proof.
   exact (simP_call_assign_multi XS sg xs f rets args vals rvals sg1 o r sg' out g Hp Hs Hxs Hv Hsc Lr Lv Henv1 IH s u s' b Ht Hf).
 Qed.
 
+(* ---- return ---- *)
+Lemma return_step XS sg es s u s' b rvals :
+  forallb pure es = true -> t_stmt bash_conv (SReturn es) s = TOk u s' -> pevals sg es = Some rvals -> env_ok sg ->
+  (forall e, In e es -> side XS e) -> ctx_ok XS sg b s -> fresh_flags XS s ->
+  exists X b', cext s s' X /\ ctx_ok XS sg b' s' /\
+     (forall n, (forall k, n <> helper_name s k) -> (forall i, n <> rv_name i) -> sh_get n b' = sh_get n b) /\
+     (forall i v, nth_error rvals i = Some v -> sh_get (rv_name i) b' = text v) /\
+     forall L rest, lruns b L (X ++ rest) (b', []).
+Proof.
+  intros Hp Ht Hv Henv Hes [Cf Hrep Hhy Hinj] Hfl.
+  destruct (return_decompose es s u s' Ht) as (vs & s1 & Ha & E2).
+  pose proof (args_as_pv _ _ _ _ Hp Ha) as Ha'.
+  destruct (print_values es sg s vs s1 b rvals XS Hp Ha' Hv Henv Hes Cf Hrep Hhy) as (l1 & b1 & E1 & M1 & R1 & V1 & F1 & S1 & Hok).
+  assert (cext s s1 l1) as C1 by (apply cext_of_ext; [exact E1|exact (pv_mono _ _ _ _ Ha')]).
+  assert (forall a j, In a vs -> a <> ARef (rv_name j)) as Hno.
+  { intros a j Ha0 Heq. rewrite Forall_forall in S1. specialize (S1 a Ha0). subst a. cbn [atom_stable] in S1.
+    destruct S1 as [(x & Hx & Hn)|(k & _ & Hn)].
+    - exact (proj1 (proj2 Hfl) x j Hx (eq_sym Hn)).
+    - exact (rv_not_helper s j k Hn). }
+  destruct (rv_exec vs 0 b1 Hno) as (b2 & R2 & V2 & F2).
+  exists (l1 ++ rv_lines vs 0 ++ [LReturn]), b2.
+  split; [eapply cext_trans; [exact C1|exact E2]|].
+  split.
+  { apply (ctx_cext XS sg b2 s s' _ (cext_trans _ _ _ _ _ C1 E2)). constructor; [exact Cf| |exact Hhy|exact Hinj].
+    intros x w Hx Hw. rewrite F2; [|intros j _; exact (proj1 (proj2 Hfl) x j Hx)].
+    rewrite F1; [exact (Hrep x w Hx Hw)|]. intros k _ Heq. exact (Hhy x k Hx Heq). }
+  split.
+  { intros n Hh Hr. rewrite F2; [|intros j _; apply Hr]. apply F1. intros k _. apply Hh. }
+  split.
+  { intros i v Hi. destruct (map_nth_agree (atom_text b1) text vs rvals i v V1 Hi) as (a & Hna & Hav).
+    rewrite <- Hav. exact (V2 i a Hna). }
+  intros L rest. rewrite app_assoc, <- app_assoc.
+  assert (exec_outs b (l1 ++ rv_lines vs 0) = Some (b2, [])) as RX.
+  { apply exec_outs_silent.
+    - rewrite forallb_app, (exec_lines_no_echo l1 b b1 R1), rv_lines_no_echo. reflexivity.
+    - rewrite exec_lines_app, R1. exact R2. }
+  replace (b2, []) with (prepend [] (b2, ([] : bytes))) by reflexivity.
+  apply (lruns_straight (l1 ++ rv_lines vs 0) b b2 [] L _ _ RX).
+  exists 1%nat. reflexivity.
+Qed.
+
+
+Lemma simP_return XS sg es rvals r :
+  forallb pure es = true -> (forall e, In e es -> side XS e) -> pevals sg es = Some rvals ->
+  simP XS sg (SReturn es :: r) sg [] (SR rvals).
+Proof.
+  intros Hp Hs Hv s u s' b Ht Hf Henv Hc Hfl.
+  cbn [go_fix] in Ht. mb Ht as u1 s1 H1 H2. cbn [frag2_all] in Hf. apply andb_true_iff in Hf as [_ Hfr].
+  destruct (return_step XS sg es s u1 s1 b rvals Hp H1 Hv Henv Hs Hc Hfl) as (Xr & b' & Er & Cr & Fr & Vr & Hkr).
+  destruct (go_e3 r (all_e3 r) Hfr _ _ _ H2) as (X2 & E2 & _ & _).
+  exists (Xr ++ X2), b'. split; [eapply cext_trans; eassumption|]. split; [exact (ctx_cext _ _ _ _ _ _ E2 Cr)|].
+  split; [intros n _ Hh _ _ Hrv _; apply Fr; assumption|].
+  split; [exact Vr|].
+  intros L rest res H. cbn [after] in H. subst res. rewrite <- app_assoc. rewrite prepend_nil. exact (Hkr L (X2 ++ rest)).
+Qed.
+
 Lemma simP_break XS sg r : simP XS sg (SBreak :: r) sg [] SB.
 Proof.
   intros s u s' b Ht Hf _ Hc _. cbn [go_fix] in Ht. mb Ht as u1 s1 H1 H2. cbn [t_stmt] in H1. rewrite bash_break in H1. inversion H1; subst; clear H1.
@@ -1244,6 +1407,7 @@ Proof.
   destruct (go_e3 r (all_e3 r) Hfr _ _ _ H2) as (Xr & Er & [_ Dr] & _).
   assert (cext s s' ([LBreak] ++ Xr)) as E by (eapply cext_trans; [apply cext_line|exact Er]).
   exists ([LBreak] ++ Xr), b. split; [exact E|]. split; [exact (ctx_cext _ _ _ _ _ _ E Hc)|]. split; [apply untouched_refl|].
+  split; [exact I|].
   intros L rest res H. cbn [after] in H. destruct L as [|t L']; [contradiction|]. destruct H as (r' & Hs & [f Hr]).
   rewrite prepend_nil. exists (S f). cbn [app lrun]. rewrite Dr, Hs. exact Hr.
 Qed.
@@ -1255,6 +1419,7 @@ Proof.
   destruct (go_e3 r (all_e3 r) Hfr _ _ _ H2) as (Xr & Er & _ & _).
   assert (cext s s' ([LContinue] ++ Xr)) as E by (eapply cext_trans; [apply cext_line|exact Er]).
   exists ([LContinue] ++ Xr), b. split; [exact E|]. split; [exact (ctx_cext _ _ _ _ _ _ E Hc)|]. split; [apply untouched_refl|].
+  split; [exact I|].
   intros L rest res H. cbn [after] in H. destruct L as [|t L']; [contradiction|]. destruct H as [f Hr].
   rewrite prepend_nil. exists (S f). cbn [app lrun]. exact Hr.
 Qed.
@@ -1279,40 +1444,43 @@ Proof. intro H. destruct b as [|x r]; [unfold tb in H; mu H; subst; apply le_n|e
 Lemma lrun_body XS sg body sgm outm g s u s1 b :
   tb body s = TOk u s1 -> frag2_all body = true -> simP XS sg body sgm outm g -> env_ok sg -> ctx_ok XS sg b s -> fresh_flags XS s ->
   exists B b', cext s s1 B /\ cl3 B /\ ctx_ok XS sgm b' s1 /\ untouched XS s s1 b b' /\
-               forall L rest res, after g b' L rest res -> lruns b L (B ++ rest) (prepend outm res).
+               regs g b' /\ forall L rest res, after g b' L rest res -> lruns b L (B ++ rest) (prepend outm res).
 Proof.
   intros Ht Hf Hsim Henv Hc Hfl. destruct body as [|x r].
-  - unfold tb in Ht. mu Ht. subst s1. destruct (Hsim s tt s b eq_refl eq_refl Henv Hc Hfl) as (X & b' & Ex & Cc & U & Hk).
+  - unfold tb in Ht. mu Ht. subst s1. destruct (Hsim s tt s b eq_refl eq_refl Henv Hc Hfl) as (X & b' & Ex & Cc & U & Rg & Hk).
     assert (X = []) as -> by (pose proof (cx_code _ _ _ Ex) as Cx; rewrite <- (app_nil_r (b_code s)) in Cx at 1; apply app_inv_head in Cx; symmetry; exact Cx).
     exists [LNop], b'. split; [apply cext_line|]. split; [apply cl3_plain; reflexivity|].
     split; [exact (ctx_cext _ _ _ _ _ _ (cext_line LNop s) Cc)|]. split; [exact U|].
+    split; [exact Rg|].
     intros L rest res Hr. destruct (Hk L rest res Hr) as [f Hf']. exists (S f). exact Hf'.
   - destruct (go_e3 (x :: r) (all_e3 _) Hf s u s1 Ht) as (B & EB & CB & _).
-    destruct (Hsim s u s1 b Ht Hf Henv Hc Hfl) as (X & b' & Ex & Cc & U & Hk).
+    destruct (Hsim s u s1 b Ht Hf Henv Hc Hfl) as (X & b' & Ex & Cc & U & Rg & Hk).
     assert (X = B) as -> by exact (code_same_cext _ _ _ _ (cx_code _ _ _ Ex) EB).
-    exists B, b'. split; [exact EB|]. split; [exact CB|]. split; [exact Cc|]. split; [exact U|exact Hk].
+    exists B, b'. split; [exact EB|]. split; [exact CB|]. split; [exact Cc|]. split; [exact U|]. split; [exact Rg|exact Hk].
 Qed.
 
 Lemma lwalk_else XS sg sgm outm g els s s1 b :
   else_part els s = TOk tt s1 -> frag2_all els = true -> simP XS sg els sgm outm g -> env_ok sg -> ctx_ok XS sg b s -> fresh_flags XS s ->
   exists T b', cext s (add_line LFi s1) T /\ tail3 T /\ ctx_ok XS sgm b' (add_line LFi s1) /\ untouched XS s (add_line LFi s1) b b' /\
-               forall L rest res, after g b' L rest res -> lseeks b L (T ++ rest) (prepend outm res).
+               regs g b' /\ forall L rest res, after g b' L rest res -> lseeks b L (T ++ rest) (prepend outm res).
 Proof.
   intros He Hf Hsim Henv Hc Hfl. destruct els as [|x r].
-  - mr He. destruct (Hsim s1 tt s1 b eq_refl eq_refl Henv Hc Hfl) as (X & b' & Ex & Cc & U & Hk).
+  - mr He. destruct (Hsim s1 tt s1 b eq_refl eq_refl Henv Hc Hfl) as (X & b' & Ex & Cc & U & Rg & Hk).
     assert (X = []) as -> by (pose proof (cx_code _ _ _ Ex) as Cx; rewrite <- (app_nil_r (b_code s1)) in Cx at 1; apply app_inv_head in Cx; symmetry; exact Cx).
     exists [LFi], b'. split; [apply cext_line|]. split; [apply tail3_fi|].
     split; [exact (ctx_cext _ _ _ _ _ _ (cext_line LFi s1) Cc)|]. split; [exact U|].
+    split; [exact Rg|].
     intros L rest res Hr. destruct (Hk L rest res Hr) as [f Hf']. exists (S f). exact Hf'.
   - unfold else_part in He. mb He as u1 s2 H1 H2. rewrite bash_else_start in H1. inversion H1; subst; clear H1.
     assert (ctx_ok XS sg b (add_line LElse s)) as Hc1 by exact (ctx_cext _ _ _ _ _ _ (cext_line LElse s) Hc).
     assert (fresh_flags XS (add_line LElse s)) as Hfl1 by exact (fresh_cext _ _ _ _ (cext_line LElse s) Hfl).
-    destruct (lrun_body XS sg (x :: r) sgm outm g _ tt s1 b H2 Hf Hsim Henv Hc1 Hfl1) as (B & b' & EB & CB & Cc & U & Hk).
+    destruct (lrun_body XS sg (x :: r) sgm outm g _ tt s1 b H2 Hf Hsim Henv Hc1 Hfl1) as (B & b' & EB & CB & Cc & U & Rg & Hk).
     exists ([LElse] ++ B ++ [LFi]), b'.
     split; [eapply cext_trans; [apply cext_line|]; eapply cext_trans; [exact EB|apply cext_line]|].
     split; [apply tail3_else; exact CB|].
     split; [exact (ctx_cext _ _ _ _ _ _ (cext_line LFi s1) Cc)|].
     split; [exact (untouched_gen XS s (add_line LElse s) s1 (add_line LFi s1) [LElse] b b' (cext_line LElse s) (le_n _) U)|].
+    split; [exact Rg|].
     intros L rest res Hr.
     assert (after g b' L ([LFi] ++ rest) res) as Hr1 by exact (after_tail g b' L [LFi] rest res tail3_fi Hr).
     destruct (Hk L ([LFi] ++ rest) res Hr1) as [f Hf']. exists (S f). cbn [app lrun]. rewrite <- app_assoc. exact Hf'.
@@ -1327,7 +1495,7 @@ Lemma lwalk XS sgm outm g els : frag2_all els = true ->
   env_ok sg -> ctx_ok XS sg b s -> fresh_flags XS s ->
   simP XS sg (pick bools (map snd elifs) els) sgm outm g ->
   exists T b', cext s (add_line LFi s2) T /\ tail3 T /\ ctx_ok XS sgm b' (add_line LFi s2) /\ untouched XS s (add_line LFi s2) b b' /\
-               forall L rest res, after g b' L rest res -> lseeks b L (T ++ rest) (prepend outm res).
+               regs g b' /\ forall L rest res, after g b' L rest res -> lseeks b L (T ++ rest) (prepend outm res).
 Proof.
   intros Hfe. induction elifs as [|[c body] r IH]; intros Hf cs bools s s1 s2 sg b Lc Lb Hb He Ht Henv Hc Hfl Hsim.
   - mr Hb. destruct bools; [|discriminate]. cbn [pick map] in Hsim. exact (lwalk_else XS sg sgm outm g els _ _ b He Hfe Hsim Henv Hc Hfl).
@@ -1341,7 +1509,7 @@ Proof.
     assert (fresh_flags XS se) as Hfl1 by exact (fresh_cext _ _ _ _ Ese Hfl).
     destruct t.
     + cbn [pick map snd] in Hsim.
-      destruct (lrun_body XS sg body sgm outm g _ tt sm b Hm Hfb Hsim Henv Hc1 Hfl1) as (B & b' & EB & CB & Cc & U & Hk).
+      destruct (lrun_body XS sg body sgm outm g _ tt sm b Hm Hfb Hsim Henv Hc1 Hfl1) as (B & b' & EB & CB & Cc & U & Rg & Hk).
       assert (Forall (fun cb => Forall stmt_e3 (snd cb)) r) as HFr by (apply Forall_forall; intros cb _; apply all_e3).
       destruct (bodies_tail3 r HFr Hfr els (all_e3 els) Hfe vr sm s1 s2 Lc Hrest He) as (T & ET & CT & _).
       exists ([LIf (bs "elif") v] ++ B ++ T), b'.
@@ -1349,6 +1517,7 @@ Proof.
       split; [apply tail3_elif; assumption|].
       split; [exact (ctx_cext _ _ _ _ _ _ ET Cc)|].
       split; [exact (untouched_gen XS s se sm (add_line LFi s2) _ b b' Ese (cx_mono _ _ _ ET) U)|].
+      split; [exact Rg|].
       intros L rest res Hr. pose proof (after_tail g b' L T rest res CT Hr) as Hr1.
       destruct (Hk L (T ++ rest) res Hr1) as [f Hf']. exists (S f). cbn [app lrun].
       rewrite (cond_of_text b v true Hv). rewrite <- app_assoc. exact Hf'.
@@ -1356,13 +1525,14 @@ Proof.
       destruct (tb_e3 body (all_e3 body) Hfb _ _ _ Hm) as (B & EB & CB & _).
       assert (ctx_ok XS sg b sm) as Hcm by exact (ctx_cext _ _ _ _ _ _ EB Hc1).
       assert (fresh_flags XS sm) as Hflm by exact (fresh_cext _ _ _ _ EB Hfl1).
-      destruct (IH Hfr vr ts sm s1 s2 sg b Lc Lb Hrest He Hvr Henv Hcm Hflm Hsim) as (T & b' & ET & CT & Cc & U & Hk).
+      destruct (IH Hfr vr ts sm s1 s2 sg b Lc Lb Hrest He Hvr Henv Hcm Hflm Hsim) as (T & b' & ET & CT & Cc & U & Rg & Hk).
       exists ([LIf (bs "elif") v] ++ B ++ T), b'.
       split; [eapply cext_trans; [exact Ese|]; eapply cext_trans; [exact EB|exact ET]|].
       split; [apply tail3_elif; assumption|]. split; [exact Cc|].
       split.
       { assert (cext s sm ([LIf (bs "elif") v] ++ B)) as Esm by (eapply cext_trans; [exact Ese|exact EB]).
         exact (untouched_gen XS s sm (add_line LFi s2) (add_line LFi s2) _ b b' Esm (le_n _) U). }
+      split; [exact Rg|].
       intros L rest res Hr. destruct (Hk L rest res Hr) as [f Hf']. exists (S f). cbn [app lrun].
       rewrite (cond_of_text b v false Hv). rewrite <- app_assoc. destruct CB as [[CB1 _] _]. rewrite CB1.
       destruct CT as [CTO _]. rewrite (t_here T CTO rest). exact Hf'.
@@ -1375,7 +1545,7 @@ Lemma if_construct XS sg c0 b0 elifs els bools sgm outm g s u s1 b :
   simP XS sg (pick bools (b0 :: map snd elifs) els) sgm outm g ->
   env_ok sg -> ctx_ok XS sg b s -> fresh_flags XS s ->
   exists XI b1, cext s s1 XI /\ ctx_ok XS sgm b1 s1 /\ untouched XS s s1 b b1 /\
-                forall L rest res, after g b1 L rest res -> lruns b L (XI ++ rest) (prepend outm res).
+                regs g b1 /\ forall L rest res, after g b1 L rest res -> lruns b L (XI ++ rest) (prepend outm res).
 Proof.
   intros H1 Hfrag Hside Hv IHch Henv Hc Hfl.
   destruct (if_decompose c0 b0 elifs els s u s1 H1) as (v0 & s0 & cs & sc & sb0 & sch & sel & E0 & Ec & Eb0 & Ech & Eel & ->).
@@ -1412,12 +1582,13 @@ Proof.
   assert (Forall (fun cb => Forall stmt_e3 (snd cb)) elifs) as HFr by (apply Forall_forall; intros cb _; apply all_e3).
   destruct t0.
   - cbn [pick map snd] in IHch.
-    destruct (lrun_body XS sg b0 sgm outm g _ tt sb0 bc Eb0 Hf0 IHch Henv HcI HflI) as (B0 & b1 & EB0 & CB0 & Cc1 & U1 & Hk0).
+    destruct (lrun_body XS sg b0 sgm outm g _ tt sb0 bc Eb0 Hf0 IHch Henv HcI HflI) as (B0 & b1 & EB0 & CB0 & Cc1 & U1 & Rg0 & Hk0).
     destruct (bodies_tail3 elifs HFr Hfb els (all_e3 els) Hfe cs sb0 sch sel Lcs Ech Eel) as (T & ET & CT & _).
     exists (Lc ++ [LIf (bs "if") a0] ++ B0 ++ T), b1.
     split; [eapply cext_trans; [exact CLc|]; eapply cext_trans; [apply cext_line|]; eapply cext_trans; [exact EB0|exact ET]|].
     split; [exact (ctx_cext _ _ _ _ _ _ ET Cc1)|].
     split; [exact (untouched_trans XS s sI _ _ b bc b1 EsI (Nat.le_trans _ _ _ (cx_mono _ _ _ EB0) (cx_mono _ _ _ ET)) (Uc sI) (untouched_gen XS sI sI sb0 _ [] bc b1 (cext_refl sI) (cx_mono _ _ _ ET) U1))|].
+    split; [exact Rg0|].
     intros L rest res Hr. pose proof (after_tail g b1 L T rest res CT Hr) as Hr1.
     destruct (Hk0 L (T ++ rest) res Hr1) as [f Hf'].
     assert (lruns bc L (([LIf (bs "if") a0] ++ B0 ++ T) ++ rest) (prepend outm res)) as HrI.
@@ -1427,13 +1598,14 @@ Proof.
     destruct (tb_e3 b0 (all_e3 b0) Hf0 _ _ _ Eb0) as (B0 & EB0 & CB0 & _).
     assert (ctx_ok XS sg bc sb0) as Hcb by exact (ctx_cext _ _ _ _ _ _ EB0 HcI).
     assert (fresh_flags XS sb0) as Hflb by exact (fresh_cext _ _ _ _ EB0 HflI).
-    destruct (lwalk XS sgm outm g els Hfe elifs Hfb cs ts sb0 sch sel sg bc Lcs Lts Ech Eel Vts' Henv Hcb Hflb IHch) as (T & b1 & ET & CT & Cc1 & U1 & HkT).
+    destruct (lwalk XS sgm outm g els Hfe elifs Hfb cs ts sb0 sch sel sg bc Lcs Lts Ech Eel Vts' Henv Hcb Hflb IHch) as (T & b1 & ET & CT & Cc1 & U1 & RgT & HkT).
     exists (Lc ++ [LIf (bs "if") a0] ++ B0 ++ T), b1.
     split; [eapply cext_trans; [exact CLc|]; eapply cext_trans; [apply cext_line|]; eapply cext_trans; [exact EB0|exact ET]|].
     split; [exact Cc1|].
     split.
     { assert (cext s sb0 ((Lc ++ [LIf (bs "if") a0]) ++ B0)) as Esb by (eapply cext_trans; [exact EsI|exact EB0]).
       exact (untouched_trans XS s sb0 _ _ b bc b1 Esb (cx_mono _ _ _ ET) (Uc sb0) U1). }
+    split; [exact RgT|].
     intros L rest res Hr. destruct (HkT L rest res Hr) as [f Hf'].
     assert (lruns bc L (([LIf (bs "if") a0] ++ B0 ++ T) ++ rest) (prepend outm res)) as HrI.
     { exists (S f). cbn [app lrun]. change (is_if (bs "if")) with true. cbn iota. rewrite (cond_of_text bc a0 false V0).
@@ -1506,7 +1678,7 @@ Proof.
     specialize (Hflag ltac:(discriminate)).
     destruct first; cbn [incr_of opt_list negb] in *.
     + (* first round: the guard skips the increment *)
-      destruct (Hsim sg0 tt sg0 b eq_refl eq_refl Henv Hc0 Hfl0) as (X & b1 & Ex & Cc & U & Hk).
+      destruct (Hsim sg0 tt sg0 b eq_refl eq_refl Henv Hc0 Hfl0) as (X & b1 & Ex & Cc & U & Rg & Hk).
       assert (X = []) as -> by (pose proof (cx_code _ _ _ Ex) as Cx; rewrite <- (app_nil_r (b_code sg0)) in Cx at 1; apply app_inv_head in Cx; symmetry; exact Cx).
       exists ([LIncrGuard f] ++ Bi ++ [LFi; LFlagSet f]), (sh_set f (bs "1") b1).
       assert (cext sg0 (add_line (LFlagSet f) (add_line LFi s2)) (Bi ++ [LFi; LFlagSet f])) as E2 by (eapply cext_trans; [exact EBi|apply cext_lines2]).
@@ -1524,7 +1696,7 @@ Proof.
       assert (flag_set b f = false) as Hfs by exact Hflag. rewrite Hfs.
       rewrite <- app_assoc. destruct CBi as [[_ CB2] _]. rewrite CB2. cbn [app skip_fi]. exact Hf2.
     + (* later rounds: the increment runs *)
-      destruct (Hsim sg0 tt s2 b (go_single st sg0 s2 H2) (frag2_simple st Hs) Henv Hc0 Hfl0) as (X & b1 & Ex & Cc & U & Hk).
+      destruct (Hsim sg0 tt s2 b (go_single st sg0 s2 H2) (frag2_simple st Hs) Henv Hc0 Hfl0) as (X & b1 & Ex & Cc & U & Rg & Hk).
       assert (X = Bi) as -> by exact (code_same_cext _ _ _ _ (cx_code _ _ _ Ex) EBi).
       exists ([LIncrGuard f] ++ Bi ++ [LFi; LFlagSet f]), (sh_set f (bs "1") b1).
       assert (cext s2 (add_line (LFlagSet f) (add_line LFi s2)) [LFi; LFlagSet f]) as E3 by apply cext_lines2.
@@ -1540,7 +1712,7 @@ Proof.
       exists (S f2). cbn [app lrun]. assert (flag_set b f = true) as Hfs by exact Hflag. rewrite Hfs. rewrite <- app_assoc. exact Hf2.
   - (* no increment clause *)
     mr En. assert (incr_of first None = []) as Ei by (destruct first; reflexivity). rewrite Ei in Hsim.
-    destruct (Hsim sf tt sf b eq_refl eq_refl Henv Hc Hflf) as (X & b1 & Ex & Cc & U & Hk).
+    destruct (Hsim sf tt sf b eq_refl eq_refl Henv Hc Hflf) as (X & b1 & Ex & Cc & U & Rg & Hk).
     assert (X = []) as -> by (pose proof (cx_code _ _ _ Ex) as Cx; rewrite <- (app_nil_r (b_code sf)) in Cx at 1; apply app_inv_head in Cx; symmetry; exact Cx).
     exists [], b1. split; [apply cext_refl|]. split; [apply cl3_nil|]. split; [exact Cc|].
     split; [exact (untouched_gen XS si sf sf sf _ b b1 (for_start_cext si) (le_n _) U)|].
@@ -1657,7 +1829,7 @@ Proof.
   set (a := first_value bash_conv vc) in *. set (sB := add_line (LBreakUnless a) sc) in *.
   assert (cext si sB ([LForInit (flag_of si); LWhile] ++ H ++ [LBreakUnless a])) as EsB by (eapply cext_trans; [apply for_start_cext|exact EH]).
   destruct (lrun_body XS sg1 body sg2 o2 SB sB tt sd b2 (lt_body _ _ _ _ _ _ _ _ LT) (lt_fb _ _ _ _ _ _ _ _ LT) Hbody Henv1 Cc (fresh_cext _ _ _ _ EsB Hfl))
-    as (B & b3 & EB & CB & Cc3 & U3 & Hk3).
+    as (B & b3 & EB & CB & Cc3 & U3 & Rg3 & Hk3).
   exists (H ++ [LBreakUnless a] ++ B), b3.
   split; [rewrite app_assoc; eapply cext_trans; [exact EH|exact EB]|].
   split; [apply cl3_app; [exact CH|]; apply cl3_app; [apply cl3_plain; reflexivity|exact CB]|].
@@ -1673,7 +1845,7 @@ Qed.
 
 Lemma simL_next XS first cond incr body sg sg1 o1 sg2 o2 gb sg3 o3 :
   simP XS sg (incr_of first incr) sg1 o1 SN -> env_ok sg1 -> env_ok sg2 -> peval sg1 cond = Some (VBool true) ->
-  simP XS sg1 body sg2 o2 gb -> gb <> SB ->
+  simP XS sg1 body sg2 o2 gb -> (gb = SN \/ gb = SC) ->
   simL XS false cond incr body sg2 sg3 o3 ->
   simL XS first cond incr body sg sg3 (o1 ++ o2 ++ o3).
 Proof.
@@ -1684,7 +1856,7 @@ Proof.
   assert (cext si sB ([LForInit (flag_of si); LWhile] ++ H ++ [LBreakUnless a])) as EsB by (eapply cext_trans; [apply for_start_cext|exact EH]).
   assert (fresh_flags XS sB) as HflB by exact (fresh_cext _ _ _ _ EsB Hfl).
   destruct (lrun_body XS sg1 body sg2 o2 gb sB tt sd b2 (lt_body _ _ _ _ _ _ _ _ LT) (lt_fb _ _ _ _ _ _ _ _ LT) Hbody Henv1 Cc HflB)
-    as (B & b3 & EB & CB & Cc3 & U3 & Hk3).
+    as (B & b3 & EB & CB & Cc3 & U3 & Rg3 & Hk3).
   assert (cext (cv_for_start bstate atom bash_conv si) sd (H ++ [LBreakUnless a] ++ B)) as ER
     by (rewrite app_assoc; eapply cext_trans; [exact EH|exact EB]).
   (* the next rounds start from the environment the body left *)
@@ -1712,7 +1884,7 @@ Proof.
   apply Hk.
   pose proof (Hk' L' rest res Hr) as Hloop. fold top in Hloop.
   assert (after gb b3 (top :: L') ([LDone] ++ rest) (prepend o3 res)) as Ha.
-  { destruct gb; [|contradiction|exact Hloop]. cbn [after]. destruct Hloop as [f Hf]. exists (S f). cbn [app lrun]. exact Hf. }
+  { destruct Hgb as [->| ->]; [|exact Hloop]. cbn [after]. destruct Hloop as [f Hf]. exists (S f). cbn [app lrun]. exact Hf. }
   destruct (Hk3 (top :: L') ([LDone] ++ rest) (prepend o3 res) Ha) as [f Hf]. exists (S f). cbn [app lrun]. rewrite Ct. exact Hf.
 Qed.
 
@@ -1725,10 +1897,11 @@ Lemma simP_if_next XS sg c0 b0 elifs els bools sgm outm r sg' out g :
 Proof.
   intros Hfrag Hside Hv IHch Henvm IHr s u s' b Ht Hf Henv Hc Hfl.
   cbn [go_fix] in Ht. mb Ht as u1 s1 H1 H2. cbn [frag2_all] in Hf. apply andb_true_iff in Hf as [_ Hfr].
-  destruct (if_construct XS sg c0 b0 elifs els bools sgm outm SN s u1 s1 b H1 Hfrag Hside Hv IHch Henv Hc Hfl) as (XI & b1 & EI & C1 & U1 & HkI).
-  destruct (IHr s1 u s' b1 H2 Hfr Henvm C1 (fresh_cext _ _ _ _ EI Hfl)) as (X2 & b2 & E2 & C2 & U2 & Hk2).
+  destruct (if_construct XS sg c0 b0 elifs els bools sgm outm SN s u1 s1 b H1 Hfrag Hside Hv IHch Henv Hc Hfl) as (XI & b1 & EI & C1 & U1 & RgI & HkI).
+  destruct (IHr s1 u s' b1 H2 Hfr Henvm C1 (fresh_cext _ _ _ _ EI Hfl)) as (X2 & b2 & E2 & C2 & U2 & Rg2 & Hk2).
   exists (XI ++ X2), b2. split; [eapply cext_trans; eassumption|]. split; [exact C2|].
   split; [exact (untouched_trans XS s s1 s' XI b b1 b2 EI (cx_mono _ _ _ E2) U1 U2)|].
+  split; [exact Rg2|].
   intros L rest res H. rewrite <- app_assoc. rewrite <- prepend_app. apply HkI. cbn [after]. exact (Hk2 L rest res H).
 Qed.
 
@@ -1740,9 +1913,10 @@ Lemma simP_if_stop XS sg c0 b0 elifs els bools sgm outm r g :
 Proof.
   intros Hfrag Hside Hv IHch Hg s u s' b Ht Hf Henv Hc Hfl.
   cbn [go_fix] in Ht. mb Ht as u1 s1 H1 H2. cbn [frag2_all] in Hf. apply andb_true_iff in Hf as [_ Hfr].
-  destruct (if_construct XS sg c0 b0 elifs els bools sgm outm g s u1 s1 b H1 Hfrag Hside Hv IHch Henv Hc Hfl) as (XI & b1 & EI & C1 & U1 & HkI).
+  destruct (if_construct XS sg c0 b0 elifs els bools sgm outm g s u1 s1 b H1 Hfrag Hside Hv IHch Henv Hc Hfl) as (XI & b1 & EI & C1 & U1 & RgI & HkI).
   destruct (go_e3 r (all_e3 r) Hfr _ _ _ H2) as (Xr & Er & [_ Dr] & _).
   exists (XI ++ Xr), b1. split; [eapply cext_trans; eassumption|]. split; [exact (ctx_cext _ _ _ _ _ _ Er C1)|]. split; [exact (untouched_gen XS s s s1 s' [] b b1 (cext_refl s) (cx_mono _ _ _ Er) U1)|].
+  split; [exact RgI|].
   intros L rest res H. rewrite <- app_assoc. apply HkI. apply after_skip; assumption.
 Qed.
 
@@ -1759,7 +1933,7 @@ Proof.
   destruct (for_decompose init cond incr body s u1 s1 H1) as (si & sn & vc & sc & sd & Ei & En & Ec & Eb & Ee).
   pose proof (mkLoopT cond incr body si sn sc sd vc En Ec Eb Hfn Hpc Hfb) as LT.
   (* the init clause *)
-  destruct (IH1 s tt si b (go_opt init s si Ei) (frag2_opt init Hfi) Henv Hc Hfl) as (X0 & b0 & E0 & C0 & U0 & Hk0).
+  destruct (IH1 s tt si b (go_opt init s si Ei) (frag2_opt init Hfi) Henv Hc Hfl) as (X0 & b0 & E0 & C0 & U0 & Rg0 & Hk0).
   pose proof (go_mono _ _ _ _ (go_opt init s si Ei)) as M0.
   assert (fresh_flags XS si) as Hfli by exact (fresh_cext _ _ _ _ E0 Hfl).
   set (k0 := b_for_counter si). set (f := fname k0).
@@ -1776,7 +1950,7 @@ Proof.
   assert (cext s sE (X0 ++ [LForInit (flag_of si); LWhile] ++ R ++ [LDone])) as EsE
     by (eapply cext_trans; [exact E0|]; eapply cext_trans; [apply for_start_cext|]; eapply cext_trans; [exact ER|exact EE]).
   assert (b_for_counter s <= b_for_counter sE)%nat as ME by exact (for_counter_mono _ _ _ _ H1).
-  destruct (IH3 sE u s' b2 H2 Hfr Henv2 (ctx_cext _ _ _ _ _ _ EE C2) (fresh_cext _ _ _ _ EsE Hfl)) as (X3 & b3 & E3 & C3 & U3 & Hk3).
+  destruct (IH3 sE u s' b2 H2 Hfr Henv2 (ctx_cext _ _ _ _ _ _ EE C2) (fresh_cext _ _ _ _ EsE Hfl)) as (X3 & b3 & E3 & C3 & U3 & Rg3 & Hk3).
   exists ((X0 ++ [LForInit (flag_of si); LWhile] ++ R ++ [LDone]) ++ X3), b3.
   split; [eapply cext_trans; eassumption|]. split; [exact C3|].
   split.
@@ -1787,6 +1961,7 @@ Proof.
     refine (untouched_gen XS s si sE sE _ b0 b2 E0 (le_n _) _).
     apply (untouched_compose XS si sE b0 (sh_set f [] b0)); [apply untouched_set_flag; unfold k0; lia|].
     refine (untouched_gen XS si si sd sE [] _ b2 (cext_refl si) _ U2). lia. }
+  split; [exact Rg3|].
   intros L rest res H.
   pose proof (Hk3 L rest res H) as H3.
   pose proof (HkL L (X3 ++ rest) (prepend out res) H3) as HL.
@@ -1812,7 +1987,7 @@ Proof.
                  |sg xs f rets args vals rvals sg1 o r sg' out g Hp Hs Hxs Hv Hsc Lr Lv Henv' Hr IH
                  |sg xs f rets args vals rvals sg1 o r sg' out g Hp Hs Hxs Hv Hsc Lr Lv Henv' Hr IH
                  |sg f rets args vals rvals sg1 o r sg' out g Hp Hs Hv Hsc Henv' Hr IH
-                 |sg r Hfr|sg r Hfr
+                 |sg es rvals r Hp Hs Hv Hfr|sg r Hfr|sg r Hfr
                  |sg c0 b0 elifs els bools sgm outm r sg' out g Hfrag Hside Hv Hch IHch Hr IHr
                  |sg c0 b0 elifs els bools sgm outm r g Hfrag Hside Hv Hch IHch Hg Hfr
                  |sg init cond incr body sg1 o1 sg2 o2 r sg' out g Hfrag Hside Hi IHi Hl IHl Hr IHr
@@ -1833,6 +2008,7 @@ Proof.
   - exact (simP_call_assign_multi XS sg xs f rets args vals rvals sg1 o r sg' out g Hp Hs Hxs Hv Hsc Lr Lv Henv' (IH Henv')).
   - exact (simP_call_define_multi XS sg xs f rets args vals rvals sg1 o r sg' out g Hp Hs Hxs Hv Hsc Lr Lv Henv' (IH Henv')).
   - exact (simP_call_stmt XS sg f rets args vals rvals sg1 o r sg' out g Hp Hs Hv Hsc Henv' (IH Henv')).
+  - exact (simP_return XS sg es rvals r Hp Hs Hv).
   - apply simP_break.
   - apply simP_continue.
   - pose proof (J_env _ _ _ _ _ _ Hch Henv) as Henvm. exact (simP_if_next XS sg c0 b0 elifs els bools sgm outm r sg' out g Hfrag Hside Hv (IHch Henv) Henvm (IHr Henvm)).
@@ -1852,7 +2028,7 @@ Theorem loops_preserved : forall XS sg body sg' out s u s' b,
   exists X b', b_code s' = b_code s ++ X /\ lruns b [] X (b', out) /\ represents sg' b' s' XS.
 Proof.
   intros XS sg body sg' out s u s' b H Ht Hf Henv Hc Hfl.
-  destruct (J_sim XS (Prog body) sg sg' out SN H Henv s u s' b Ht Hf Henv Hc Hfl) as (X & b' & Ex & Cc & _ & Hk).
+  destruct (J_sim XS (Prog body) sg sg' out SN H Henv s u s' b Ht Hf Henv Hc Hfl) as (X & b' & Ex & Cc & _ & _ & Hk).
   exists X, b'. split; [exact (cx_code _ _ _ Ex)|]. split; [|exact (c_rep _ _ _ _ Cc)].
   assert (after SN b' [] [] (b', [])) as H0 by (cbn [after]; exists 1%nat; reflexivity).
   pose proof (Hk [] [] (b', []) H0) as Hr. rewrite app_nil_r in Hr. unfold prepend in Hr. cbn [fst snd] in Hr. rewrite app_nil_r in Hr. exact Hr.
